@@ -242,8 +242,14 @@ def run_unit_verus(u, repo):
 
     # ---- main pass diagnostics
     compile_errs, undecided = [], []
+    # Verus stops before verification on any rustc / VIR error: if it reports verification results
+    # without a VIR error, every remaining `error` diagnostic is a failed proof obligation
+    vr = vm["json"].get("verification-results") or {}
+    verification_phase = bool(vr) and not vr.get("encountered-vir-error", False) and not any(d.get("code") for d in vm["diags"] if d.get("level") == "error")
     for d in vm["diags"]:
         k = classify_diag(d)
+        if k == "compile" and verification_phase and d.get("level") == "error":
+            k = "verif"
         if k in ("summary", "warning"):
             continue
         if k == "compile":
@@ -299,8 +305,12 @@ def run_unit_verus(u, repo):
     probe_lines = {p["line"]: p for p in pm["probes"]}
     failed_probe_lines = set()
     pcompile = []
+    vrp = vp["json"].get("verification-results") or {}
+    probe_verification_phase = bool(vrp) and not vrp.get("encountered-vir-error", False) and not any(d.get("code") for d in vp["diags"] if d.get("level") == "error")
     for d in vp["diags"]:
         k = classify_diag(d)
+        if k == "compile" and probe_verification_phase:
+            k = "verif"
         if k == "compile":
             pcompile.append(d)
         if k != "verif" or "assertion failed" not in d.get("message", ""):
